@@ -32,6 +32,14 @@ def gen_cfg(rng):
                 long=(rng.random() < 0.3))
 
 
+def crowd_cfg(rng):
+    """a larger frame holding 5-8 animals of 4-6 nodes: more than 16 detected peaks in one frame"""
+    c = gen_cfg(rng)
+    c.update(H=rng.choice([128, 160]), W=rng.choice([160, 192]), maxH=0, maxW=0, n_nodes=rng.choice([4, 5, 6]), s=rng.choice([2, 4]), ps=rng.choice([2, 4]),
+             long=False, crowd=True)
+    return c
+
+
 def random_tree(n, rng):
     order = list(range(n))
     rng.shuffle(order)
@@ -70,6 +78,8 @@ def gen_scene(rng, c, edges, n_frames=3):
     for f in range(n_frames):
         animals, boxes = [], []
         n_an = rng.choice([1, 2, 3, 4, 5]) if f else rng.choice([1, 2, 3])
+        if c.get("crowd"):
+            n_an = rng.choice([5, 6, 7, 8])
         for _ in range(n_an):
             for _try in range(80):
                 pts = np.full((n, 2), np.nan)
@@ -245,7 +255,7 @@ def run(tier, seed, replay_case=None):
     seeds = [replay_case["scene_seed"]] if replay_case else [seed * 7777777 + k for k in range(n)]
     for sseed in seeds:
         srng = random.Random(sseed)
-        c = gen_cfg(srng)
+        c = crowd_cfg(srng) if sseed % 8 == 5 else gen_cfg(srng)      # every eighth scene is a crowd (> 16 peaks per frame)
         edges = random_tree(c["n_nodes"], srng)
         frames = gen_scene(srng, c, edges)
         if frames is None:
@@ -267,6 +277,7 @@ def run(tier, seed, replay_case=None):
                       "%s %s frame=%s edges=%s %s" % (c["provider"], c["full"], c["frame"], c["edges"], c["raised"]))
     res.clause("configurations_skipped_animals_do_not_fit", skipped)
     res.clause("animals_removed_because_the_labelled_pairing_was_not_the_clear_optimum", getattr(gen_scene, "resampled", 0))
+    res.clause("frames_with_more_than_16_visible_keypoints", sum(1 for c in cases if sum(1 for a in c["animals"] for n_ in a if n_["vis"]) > 16))
     res.clause("frames_with_partial_animals", sum(1 for c in cases if any(not n_["vis"] for a in c["animals"] for n_ in a)))
     res.clause("animals_total", sum(len(c["animals"]) for c in cases))
     res.clause("cases_scale_half", sum(1 for c in cases if c["cfg"]["sn"] != c["cfg"]["sd"]))
